@@ -19,6 +19,10 @@ func runC14(c *core.Ctx) {
 	h.createSegmentProtocol("C14.4 create-segment")
 	c.Clause("C14.5 openSegments handles every discovered file; in-loop exits only on error")
 	h.openHandlesEveryFile("C14.5 open-segments")
+	c.Clause("C14.6 the walks that flush, close or dispose of the segment chain visit every segment and stop only at the chain's end, a clean segment (CommitN) or an error")
+	h.segmentWalks("C14.6 segment-walks")
+	c.Clause("C14.7 no error of a file, mapping or segment operation inside the log package is dropped (a failed flush must not be reported as a completed commit)")
+	h.storageErrorsNotLost("C14.7 storage-errors")
 }
 
 func runC13(c *core.Ctx) {
@@ -32,4 +36,6 @@ func runC13(c *core.Ctx) {
 	c.Clause("C13.4 roll-over names the new segment after the last index; open chains only contiguous segments")
 	h.commitBeforeStructureChange("C13.4a roll-over")
 	h.openHandlesEveryFile("C13.4b open-chain")
+	c.Clause("C13.5 observers: Count, Contains, PrevIndex, LastIndex and segment.lastIndex are the abstract sequence's definitions")
+	h.observers("C13.5 observers")
 }
